@@ -12,38 +12,6 @@ from .c02 import schema
 WRITE_VERBS = {"INSERT", "UPDATE", "DELETE", "CREATE TABLE", "CREATE INDEX", "DROP INDEX", "DROP TABLE", "ANALYZE"}
 
 
-def write_nodes(ctx, func, eff):
-    """Statements of `func` that write the database directly or through a
-    resolved callee (creator construction included: it may unlink under force)."""
-    out = []
-    for c in calls_in(func.node):
-        why = None
-        if isinstance(c.func, ast.Attribute) and c.func.attr == "commit":
-            why = "commit"
-        for s in eff.sites.get(func.qual, []):
-            if s.call is c:
-                verbs = {st.verb for st in (s.stmts or [])}
-                if verbs & WRITE_VERBS or s.stmts is None:
-                    why = "SQL " + (",".join(sorted(verbs)) or "?")
-        fs, d = ctx.proj.resolve_call(c, func)
-        for g in fs:
-            for e in eff.transitive(g.qual):
-                kind = e[1]
-                if kind == "SQL" and e[2] in WRITE_VERBS:
-                    why = why or "calls %s (%s %s)" % (g.qual, e[2], e[3])
-                elif kind in ("COMMIT", "SCRIPT"):
-                    why = why or "calls %s (%s)" % (g.qual, kind.lower())
-                elif kind == "FS" and e[2] in ("unlink", "move"):
-                    # only the database file itself matters here (the force block); an iterator removing
-                    # its own from_string temp file is not a database write
-                    tgt = norm(e[4].args[0]) if e[4].args else ""
-                    if tgt in ("dbfn", "self.dbfn"):
-                        why = why or "calls %s (%s of the database file)" % (g.qual, e[3])
-        if why:
-            out.append((c, why))
-    return out
-
-
 COPY = ("shutil.copy2", "shutil.copy", "shutil.copyfile")
 IMPORTERS = ("create._GFFDBCreator", "create._GTFDBCreator")
 
